@@ -151,4 +151,4 @@ def t_chain(shard, nshards, seed, ev, known, n=200):
 
 def plan(tier):
     q = tier == "quick"
-    return [Task("chain", t_chain, shards=8 if q else 16, n=600 if q else 24000)]
+    return [Task("chain", t_chain, shards=8 if q else 16, n=600 if q else 12000)]
